@@ -25,7 +25,9 @@ def ordered_prog(rng):
     counter = [0]
     p, cols, _o = sp.gen_sqlprog(rng, rng.choice([0, 1, 2, 3]), counter, p_slice=0.25)
     cols = set(cols)
-    if rng.random() < 0.15:
+    if rng.random() < 0.12:
+        p, cols = sp.compound_order_cases(rng)
+    elif rng.random() < 0.15:
         p, cols = sp.windowed_then_op(rng)
     elif rng.random() < 0.3 and cols:
         # forced: a window of a total order taken at EVERY kind of query level (plain, join, UNION / UNION ALL, already
